@@ -186,6 +186,8 @@ var gramStore = ir.Store{
 	{UID: ir.Ent("T1", "admins"), Parents: []ir.Value{ir.Ent("T1", "all")}},
 	{UID: ir.Ent("T1", "staff"), Parents: []ir.Value{ir.Ent("T1", "all")}},
 	{UID: ir.Ent("T1", "all")},
+	{UID: ir.Ent("Action", "view"), Parents: []ir.Value{ir.Ent("Action", "readers")}},
+	{UID: ir.Ent("Action", "readers"), Parents: []ir.Value{ir.Ent("Action", "everything")}},
 }
 
 func genGrammarCase(rt *rapid.T) *Case {
@@ -222,6 +224,25 @@ func genGrammarCase(rt *rapid.T) *Case {
 	np := rapid.IntRange(1, 3).Draw(rt, "npol")
 	for i := 0; i < np; i++ {
 		pol := ir.NewPolicy(rapid.IntRange(0, 3).Draw(rt, "effect") > 0)
+		// scopes whose targets are two parent links away (alice -> admins -> all, view -> readers -> everything): a part
+		// that is already bound has its scope decided during partial evaluation
+		switch rapid.IntRange(0, 5).Draw(rt, "pscope") {
+		case 0:
+			pol.Principal = ir.ScopeIn(gAll)
+		case 1:
+			pol.Principal = ir.ScopeIsIn("T0", gAll)
+		}
+		switch rapid.IntRange(0, 5).Draw(rt, "ascope") {
+		case 0:
+			pol.Action = ir.ScopeInSet([]ir.Value{ir.Ent("Action", "nothing"), ir.Ent("Action", "everything")})
+		case 1:
+			pol.Action = ir.ScopeIn(ir.Ent("Action", "everything"))
+		case 2:
+			pol.Action = ir.ScopeInSet([]ir.Value{ir.Ent("Action", "readers")})
+		}
+		if rapid.IntRange(0, 5).Draw(rt, "rscope") == 0 {
+			pol.Resource = ir.ScopeIn(gAll)
+		}
 		nc := rapid.IntRange(1, 2).Draw(rt, "nconds")
 		for k := 0; k < nc; k++ {
 			pol.Conds = append(pol.Conds, ir.Cond{When: rapid.IntRange(0, 2).Draw(rt, "when") > 0, Body: g.boolE(rapid.IntRange(1, 3).Draw(rt, "depth"))})
